@@ -160,10 +160,10 @@ theorem certAAGUID_spec (env : Prog.Env) (c : CertView) :
     (∃ e, findExt c [1, 3, 6, 1, 4, 1, 45724, 1, 1, 4] = some e ∧ e.critical = true ∧
       Prog.run env (certAAGUID c) = .critical) ∨
     (∃ e, findExt c [1, 3, 6, 1, 4, 1, 45724, 1, 1, 4] = some e ∧ e.critical = false ∧
-      (∀ b, env.answer (.asn1OctetString e.value) = .bytes b → b.length ≠ 16) ∧
+      (∀ b, KeyDesc.octetStringExact e.value = some b → b.length ≠ 16) ∧
       Prog.run env (certAAGUID c) = .invalid) ∨
     (∃ e b, findExt c [1, 3, 6, 1, 4, 1, 45724, 1, 1, 4] = some e ∧ e.critical = false ∧
-      env.answer (.asn1OctetString e.value) = .bytes b ∧ b.length = 16 ∧
+      KeyDesc.octetStringExact e.value = some b ∧ b.length = 16 ∧
       Prog.run env (certAAGUID c) = .value b) := by
   have hoid : Generated.Core.oidAAGUID = [1, 3, 6, 1, 4, 1, 45724, 1, 1, 4] := rfl
   have hsz : Generated.Core.aaguidSize = 16 := rfl
@@ -173,18 +173,18 @@ theorem certAAGUID_spec (env : Prog.Env) (c : CertView) :
     cases hcr : e.critical with
     | true => exact .inr (.inl ⟨e, rfl, hcr, by simp [certAAGUID, hoid, hf, hcr]⟩)
     | false =>
-      cases hb : Prog.run env (askBytes (.asn1OctetString e.value)) with
+      cases hb : KeyDesc.octetStringExact e.value with
       | none =>
         refine .inr (.inr (.inl ⟨e, rfl, hcr, ?_, by simp [certAAGUID, hoid, hf, hcr, hb]⟩))
         intro b hb'
-        rw [← run_askBytes, hb] at hb'; cases hb'
+        rw [hb] at hb'; cases hb'
       | some b =>
         by_cases hl : b.length = 16
-        · exact .inr (.inr (.inr ⟨e, b, rfl, hcr, (run_askBytes _ _ _).1 hb, hl,
+        · exact .inr (.inr (.inr ⟨e, b, rfl, hcr, hb, hl,
             by simp [certAAGUID, hoid, hsz, hf, hcr, hb, hl]⟩))
         · refine .inr (.inr (.inl ⟨e, rfl, hcr, ?_, by simp [certAAGUID, hoid, hsz, hf, hcr, hb, hl]⟩))
           intro b' hb'
-          rw [(run_askBytes _ _ _).1 hb] at hb'; cases hb'; exact hl
+          rw [hb] at hb'; cases hb'; exact hl
 
 theorem packedCert_iff (env : Prog.Env) (o : AttObj) (h der : Bytes) (c : CertView) :
     Prog.run env (verifyPackedCert o h der c) = true ↔
@@ -193,7 +193,7 @@ theorem packedCert_iff (env : Prog.Env) (o : AttObj) (h der : Bytes) (c : CertVi
         c.version = 3 ∧ c.country ≠ [] ∧ c.org ≠ [] ∧
         c.orgUnit = Spec.Att.s "Authenticator Attestation" ∧ c.commonName ≠ [] ∧ c.isCA = false ∧
         (∀ e, findExt c [1, 3, 6, 1, 4, 1, 45724, 1, 1, 4] = some e →
-          e.critical = false ∧ env.answer (.asn1OctetString e.value) = .bytes acd.aaguid ∧ acd.aaguid.length = 16) := by
+          e.critical = false ∧ KeyDesc.octetStringExact e.value = some acd.aaguid ∧ acd.aaguid.length = 16) := by
   simp only [verifyPackedCert, ← attested_iff, CertSigOK, ← C12.algX509_spec]
   cases hA : attestedAuthData o with
   | none => simp
@@ -370,7 +370,6 @@ theorem androidKey_iff (env : Prog.Env) (o : AttObj) (h : Bytes) (res : Result) 
               split at hr
               · simp at hr
               next e hf =>
-                simp only [Prog.run_bind, Prog.run_query] at hr
                 split at hr
                 next kd hkd =>
                   simp only [run_ite, Prog.run_pure] at hr
@@ -427,7 +426,6 @@ theorem apple_iff (env : Prog.Env) (o : AttObj) (h : Bytes) (res : Result) :
           split at hr
           · simp at hr
           next e hf =>
-            simp only [Prog.run_bind] at hr
             split at hr
             · simp at hr
             next certNonce hn =>
@@ -441,7 +439,7 @@ theorem apple_iff (env : Prog.Env) (o : AttObj) (h : Bytes) (res : Result) :
                   cases hr
                   simp only [Bool.not_eq_true', Bool.not_eq_false, ne_eq, Decidable.not_not] at hne hkeq
                   rw [keysEqual_iff] at hkeq
-                  rw [run_askBytes, ← hne] at hn
+                  rw [← hne] at hn
                   exact ⟨der, c, rest, d, acd, k, e, (unmarshal_ok_iff _ _ _).1 hc,
                     (attested_iff _ _ _).1 hA, (credKey_iff _ _).1 hK, hf, hn, hkeq.1, hkeq.2, rfl⟩
     · simp at hr
@@ -449,9 +447,8 @@ theorem apple_iff (env : Prog.Env) (o : AttObj) (h : Bytes) (res : Result) :
     have hx' := (unmarshal_ok_iff _ _ _).2 hx
     have hA' := (attested_iff _ _ _).2 hA
     have hK' := (credKey_iff _ _).2 hK
-    have hn' := (run_askBytes _ _ _).2 hn
     have hkeq : keysEqual c.key k.material = true := (keysEqual_iff _ _).2 ⟨hk1, hk2⟩
-    simp [verifyApple, hx', hA', hK', hoid, hf, hn', run_sha256, hkeq]
+    simp [verifyApple, hx', hA', hK', hoid, hf, hn, run_sha256, hkeq]
 
 /-! ### android-safetynet -/
 
